@@ -215,6 +215,59 @@ pub fn init_lock_offsets() {
     let _ = lock_offsets();
 }
 
+/// I-lock, second half (what every bin-level model assumes of writers): a store / swap /
+/// successful CAS to a bin cell, a `next` / `first` / tree link or a value cell is performed
+/// (a) while the thread holds a bin lock, or (b) on an object the thread allocated itself and has
+/// not published yet, or (c) as a CAS from null (the lock-free insert into an empty bin, the
+/// forwarding of an empty bin). Anything else is a write the models do not have.
+pub fn unlocked_writes(trace: &[TraceEv]) -> Vec<String> {
+    let mut f = vec![];
+    let mut seen_sites = std::collections::HashSet::new();
+    let mut held: std::collections::HashMap<usize, usize> = Default::default();
+    let mut private: std::collections::HashMap<usize, Vec<(usize, usize)>> = Default::default();
+    for (i, e) in trace.iter().enumerate() {
+        match e.kind {
+            Kind::BeforeLock => *held.entry(e.tid).or_default() += 1,
+            Kind::Unlock => {
+                let h = held.entry(e.tid).or_default();
+                *h = h.saturating_sub(1);
+            }
+            Kind::Alloc => private.entry(e.tid).or_default().push((e.addr, e.addr + e.a.max(e.size).max(1))),
+            Kind::Store | Kind::Swap | Kind::Cas => {
+                if e.kind == Kind::Cas && !e.ok {
+                    continue;
+                }
+                let cell_kind = e.what.contains("BinEntry") || e.what.ends_with("types::V") || e.what.ends_with("::V");
+                if !cell_kind {
+                    continue;
+                }
+                let mine = private.entry(e.tid).or_default();
+                let in_private = mine.iter().any(|(a, b)| e.addr >= *a && e.addr < *b);
+                let newv = if e.kind == Kind::Cas { e.b } else { e.a };
+                let locked = held.get(&e.tid).copied().unwrap_or(0) > 0;
+                let cas_from_null = e.kind == Kind::Cas && e.a == 0;
+                // the `Drop` impls (exclusive access) take pointers out of their cells with `swap(null)`:
+                // `Table::drop` (its forwarding node), `TreeBin::drop_fields` (`first`); a swap to null
+                // is not judged by this rule
+                let table_teardown = e.kind == Kind::Swap && e.a == 0;
+                if !locked && !in_private && !cas_from_null && !table_teardown && seen_sites.insert((e.file, e.line)) {
+                    f.push(format!(
+                        "[discipline] thread {} performs {:?} of {} at {}:{} (event {}) on a published cell while it holds no bin lock (not an insert into an empty bin, not an object of its own that is still private)",
+                        e.tid, e.kind, short(e.what), short_file(e.file), e.line, i
+                    ));
+                }
+                // publication: a pointer into one of the thread's private objects is written into
+                // a cell outside them: everything the thread built so far is published with it
+                if !in_private && newv != 0 && mine.iter().any(|(a, b)| newv >= *a && newv < *b) {
+                    mine.clear();
+                }
+            }
+            _ => {}
+        }
+    }
+    f
+}
+
 pub fn lock_discipline(trace: &[TraceEv]) -> Vec<String> {
     let offs = lock_offsets();
     let mut f = vec![];
